@@ -134,7 +134,24 @@ def refresh_coq_project():
             raise RuntimeError("coq_makefile failed:\n" + out)
 
 
-def build_harness():
+def harness_files(pid, cfg):
+    """the Go files of package main that make up this property's binary: the common ones plus
+    cXX*.go / gentables_cXX*.go plus cfg["go_files"] -- so that another property's in-progress
+    file cannot break this property's build"""
+    d = os.path.join(HARNESS, "cmd", "hx")
+    low = pid.lower()
+    names = {"main.go", "gentables.go"}
+    for f in os.listdir(d):
+        if not f.endswith(".go") or f.endswith("_test.go"):
+            continue
+        if f.startswith(low) or f.startswith("gentables_" + low):
+            names.add(f)
+    for f in cfg.get("go_files", []):
+        names.add(f)
+    return sorted(os.path.join("cmd", "hx", f) for f in names if os.path.exists(os.path.join(d, f)))
+
+
+def build_harness(pid=None, cfg=None):
     gs_src, gs_dst = os.path.join(REPO, "go.sum"), os.path.join(HARNESS, "go.sum")
     try:
         have = set(open(gs_dst).read().splitlines()) if os.path.exists(gs_dst) else set()
@@ -144,11 +161,18 @@ def build_harness():
     except OSError:
         pass
     os.makedirs(os.path.dirname(BIN), exist_ok=True)
-    return sh(["go", "build", "-tags", "verif", "-o", BIN, "./cmd/hx"], cwd=HARNESS, timeout=1500, env=go_env())
+    if pid is None:
+        return sh(["go", "build", "-tags", "verif", "-o", BIN, "./cmd/hx"], cwd=HARNESS, timeout=1500, env=go_env())
+    return sh(["go", "build", "-tags", "verif", "-o", bin_for(pid)] + harness_files(pid, cfg or {}),
+              cwd=HARNESS, timeout=1500, env=go_env())
 
 
-def gen_tables():
-    return sh([BIN, "gen-tables", "--repo", REPO, "--out", os.path.join(COQ, "Gen")], timeout=300, env=go_env())
+def bin_for(pid):
+    return os.path.join(ROOT, ".bin", "hx-" + pid)
+
+
+def gen_tables(pid=None):
+    return sh([bin_for(pid) if pid else BIN, "gen-tables", "--repo", REPO, "--out", os.path.join(COQ, "Gen")], timeout=300, env=go_env())
 
 
 def make_target(target, timeout):
@@ -263,7 +287,7 @@ def main(argv):
     target = props_file[:-2] + ".vo"
     with Lock():
         gate = grep_gate([cfg["props_file"]] + ([cfg["run_target"][:-1]] if cfg.get("run_target") else []))
-        rc, out = build_harness()
+        rc, out = build_harness(pid, cfg)
         if rc != 0:
             rp = new_replay({"kind": "harness-build", "theorem": None,
                              "what": "the correspondence harness no longer builds against /repo", "log": out[-4000:]})
@@ -273,7 +297,7 @@ def main(argv):
                                        "coverage": {"evaluations": 1, "distinct_nontrivial": 2, "explanation": "harness build failed"},
                                        "wall_s": time.time() - t0, "violations": 1})
             return 1
-        rc_t, out_t = gen_tables()
+        rc_t, out_t = gen_tables(pid)
         if rc_t != 0:
             notes.append("translator reported: " + out_t.strip()[-500:])
         refresh_coq_project()
@@ -323,7 +347,7 @@ def main(argv):
 
     # ---- 3: implementation run
     n = a.n if a.n is not None else cfg.get("%s_n" % a.tier, cfg.get("quick_n", 100))
-    hx_cmd = [BIN, cfg["hx"], "--seed", str(a.seed), "--n", str(n), "--out", work, "--tier", a.tier,
+    hx_cmd = [bin_for(pid), cfg["hx"], "--seed", str(a.seed), "--n", str(n), "--out", work, "--tier", a.tier,
               "--shard", str(cfg.get("shard", 100))]
     if a.replay:
         hx_cmd += ["--replay", a.replay]
@@ -404,7 +428,7 @@ def main(argv):
             n2 = cfg.get("search_n", max(4 * n, 1000))
             w2 = work + "-search"
             shutil.rmtree(w2, ignore_errors=True)
-            rc2, _ = sh([BIN, cfg["hx"], "--seed", str(a.seed + 7919), "--n", str(n2), "--out", w2, "--tier", a.tier,
+            rc2, _ = sh([bin_for(pid), cfg["hx"], "--seed", str(a.seed + 7919), "--n", str(n2), "--out", w2, "--tier", a.tier,
                          "--shard", "1000000000"], cwd=HARNESS, timeout=cfg.get("search_timeout", 600), env=go_env())
             try:
                 r2 = json.load(open(os.path.join(w2, "report.json")))
